@@ -1048,11 +1048,6 @@ impl World {
                     self.pick_live(prof, &|e| e.element_name() != ElementName::Autosar && e.element_name() != ElementName::ShortName)?
                 };
                 let se = self.elems[src].clone();
-                if self.masks.no_container_moves && self.is_container_with_identifiables(&se) && !matches!(kind, Kind::Copy | Kind::CopyAt if false) {
-                    // moving or copying a non-identifiable container changes the paths of its identifiable children
-                    // without any uniqueness check (known finding, witnessed separately)
-                    return None;
-                }
                 let dest_model = self.pick_model(prof);
                 let p = if hostile {
                     self.pick_receiver(prof, &|_| true)?
@@ -1061,6 +1056,39 @@ impl World {
                     *self.rng.pick_opt(&c)?
                 };
                 let pe = self.elems[p].clone();
+                if self.masks.no_container_moves && self.is_container_with_identifiables(&se) {
+                    // moving or copying a non-identifiable container changes the paths of its identifiable children without any
+                    // uniqueness check (known finding of C04 with its own witness): only collision free container moves are generated
+                    let prefix = {
+                        let mut cur = Some(pe.clone());
+                        let mut path = String::new();
+                        while let Some(c) = cur {
+                            if c.is_identifiable() {
+                                path = c.path().unwrap_or_default();
+                                break;
+                            }
+                            cur = c.parent().ok().flatten();
+                        }
+                        path
+                    };
+                    let Ok(dest_model_handle) = pe.model() else { return None };
+                    let mut stack: Vec<Element> = se.sub_elements().collect();
+                    let mut names: Vec<String> = Vec::new();
+                    while let Some(x) = stack.pop() {
+                        if x.is_identifiable() {
+                            let name = x.item_name().unwrap_or_default();
+                            if names.contains(&name) {
+                                return None;
+                            }
+                            if dest_model_handle.get_element_by_path(&format!("{prefix}/{name}")).is_some_and(|found| !is_move || found != x) {
+                                return None;
+                            }
+                            names.push(name);
+                        } else {
+                            stack.extend(x.sub_elements());
+                        }
+                    }
+                }
                 let _ = is_move;
                 if self.masks.no_type_changing_moves && pe.element_type().find_sub_element(se.element_name(), u32::MAX).is_some_and(|(t, _)| t != se.element_type()) {
                     return None;
